@@ -52,11 +52,24 @@ def check_lines(ctx, label, ops, impl, model):
     return broken
 
 
+def oracle_names(ctx, o, i):
+    """every topic / channel name the daemon lists is a valid name (invalid names are refused)"""
+    for part in i.split(" | "):
+        m = re.match(r"(T|C\[[^\]]*\])=(.*)$", part)
+        if not m or m.group(2) == "" or m.group(2).startswith("!"):
+            continue
+        for nm in m.group(2).split(","):
+            if not e4.valid_name(nm.encode("latin-1")):
+                ctx.violation("invalid-name-accepted:%d" % min(len(nm), 66),
+                              "nsqlookupd lists the invalid name %r (%d bytes)" % (nm[:80], len(nm)), o + "\n")
+
+
 def oracle_hostile(ctx, ops, impl):
     """bystander intact + still answering after every hostile stream; never an undocumented error"""
     by = None
     kinds = {}
     for o, i in zip(ops, impl):
+        oracle_names(ctx, o, i)
         w = o.split()
         if len(w) > 2 and w[1] == "identify":
             by = w[2]
@@ -96,6 +109,7 @@ def oracle_sweep(ctx, ops, impl):
     prevq = None
     st = {}
     for o, i in zip(ops, impl):
+        oracle_names(ctx, o, i)
         q = i.split(" | ", 1)
         w = o.split()
         if "raw" in w[:3]:
